@@ -45,8 +45,9 @@ def generate(rng, tier):
         r = rng.random()
         if r < 0.3:
             fs["positions"][j] = (np.array(fs["positions"][j]) + np.array([rng.randint(-2, 2) for _ in range(3)]) @ c).tolist()
-        elif r < 0.45:
-            f = np.array([rng.choice([0.0, 1.0, 0.99996, 0.5, 0.00004, rng.random()]) for _ in range(3)])
+        elif r < 0.55:
+            f = np.array([rng.choice([0.0, -0.0, 1.0, 0.99996, 0.5, 0.00004, -0.00004, -1e-7, 1e-7, 0.99995, 0.00005, 1.00001, 2.00003, -0.99997, 1.0 + rng.random(), -rng.random(),
+                                     rng.random()]) for _ in range(3)])
             fs["positions"][j] = (f @ c).tolist()
     standard = cfg["cell_family"] != "tri_rotated"
     case = {"fract": True if not standard else rng.random() < 0.7, "via_save": rng.choice(["path", "file", "save_p1_cif"]),
